@@ -323,8 +323,13 @@ def main(argv=None):
         else:
             m_ = merged[k]
             if p_['status'] == 'error' or m_['status'] == 'error':
+                # a case that crashed the checker does not hide what the other cases of the contract found
                 if p_['status'] == 'error':
-                    m_['status'], m_['message'] = 'error', p_['message']
+                    m_.setdefault('case_errors', []).append(p_['message'])
+                    continue
+                p_.setdefault('case_errors', []).append(m_['message'])
+                p_['case_errors'].extend(m_.get('case_errors', []))
+                merged[k] = p_
                 continue
             m_['obligations'].extend(p_['obligations'])
             for f_ in ('cases', 'paths'):
@@ -369,6 +374,8 @@ def main(argv=None):
         if r['status'] == 'error':
             errors.append(r)
             continue
+        for msg in r.get('case_errors', []):
+            errors.append({'name': r['name'] + ' (one case)', 'message': msg})
         fns.append('%s:%s' % (r['path'], r['qualname']))
         sources.update(r.get('sources', {}))
         for x in r.get('assumptions', []):
